@@ -2,6 +2,12 @@ import Drv.Util
 import Drv.ParMap
 import Drv.Names
 import Drv.Key
+import Drv.JsonText
+import Drv.Glue
+import Drv.FS
+import Drv.Test
+import Drv.Migrate
+import Drv.Subst
 import Drv.Store
 import Drv.Build
 import Drv.RunRec
@@ -17,6 +23,12 @@ def dispatch (j : Json) : Drv.R Json := do
   | "store" => Drv.Store.handle j
   | "build" => Drv.Build.handle j
   | "runrec" => Drv.RunRec.handle j
+  | "subst" => Drv.Subst.handle j
+  | "migrate" => Drv.Migrate.handle j
+  | "test" => Drv.Test.handle j
+  | "fs" => Drv.FS.handle j
+  | "glue" => Drv.Glue.handle j
+  | "jsontext" => Drv.JsonText.handle j
   | _ => throw "bad_op"
 
 partial def loop (h : IO.FS.Stream) (out : IO.FS.Stream) : IO Unit := do
